@@ -29,6 +29,11 @@ from .gaussian_process_train import (
 from .optimize_result import OptimizeResult
 from .options import Options
 
+# Verification hook: optional callback invoked at the end of every main-loop
+# iteration of BADS.optimize, only when the environment variable
+# PYBADS_VERIF is set to "1". It is never set by pybads itself.
+_verif_loop_probe = None
+
 
 class BADS:
     """
@@ -1422,6 +1427,20 @@ class BADS:
                     self.optim_state["iter"] = poll_iteration
 
             loop_iter += 1
+
+            # Verification probe (no-op unless PYBADS_VERIF=1 and a callback is installed)
+            if (
+                _verif_loop_probe is not None
+                and os.environ.get("PYBADS_VERIF") == "1"
+            ):
+                _verif_loop_probe(
+                    self,
+                    loop_iter,
+                    poll_iteration,
+                    do_poll_step,
+                    is_finished,
+                    msg,
+                )
 
         # End while
 
